@@ -39,6 +39,9 @@ CLAIMED = {
                 text="Lanes, storage reinterpretation, insert/extract at all indices, transpose4, to_scalars and little-/big-endian byte I/O at offsets 0..15 are executed on every backend with byte-position "
                      "operands and compared by TLC with SimdOps.tla (identity on the little-endian byte image, per-word byte reversal for big-endian I/O, lane transpose).",
                 note="Trusted: as C12."),
+    "C19": dict(level="exploration", design="5/C19", technique="trace validation of every public ppv-null method against lane-wise scalar semantics in TLA+ (TLC as oracle)",
+                text="Every public method of the five ppv-null types is called on structured and random operands in debug and release builds; TLC compares results with TraceNull.tla (scalar lane semantics) and rejects panics.",
+                note="Trusted: TLC, the scalar semantics in TraceNull.tla/SimdOps.tla, sampled operands, harness recording (canary)."),
 }
 
 PENDING = {  # properties whose checks are not built yet in this tree (kept current as checks land)
